@@ -189,7 +189,7 @@ impl Suite for ForwarderSuite {
             .boxed()
     }
     fn cases(&self, tier: Tier) -> u64 {
-        tier.pick(2400, 60_000)
+        tier.pick(2400, 16_000)
     }
     fn classify(&self, c: &Case) -> Vec<&'static str> {
         let mut v = vec![];
